@@ -36,6 +36,8 @@ PAR_SWEEP = {"quick": [dict(module="MC_Par.tla", cfg="MC_Par.cfg")], "thorough":
 
 ENT_GHOST = {"quick": [dict(module="MC_Ent.tla", cfg="MC_Ent_ghost.cfg", workers=16, timeout=600)], "thorough": [dict(module="MC_Ent.tla", cfg="MC_Ent_ghost.cfg", workers=16, timeout=600)]}
 REG_GHOST = {"quick": [dict(module="MC_Reg.tla", cfg="MC_Reg_ghost.cfg", workers=16, timeout=600)], "thorough": [dict(module="MC_Reg.tla", cfg="MC_Reg_ghost.cfg", workers=16, timeout=600)]}
+# the group policy account (32-byte address, acts through group proposals) as a party of every module
+GRP_MC = {"quick": [dict(module="MC_Grp.tla", cfg="MC_Grp_quick.cfg", workers=16, timeout=600)], "thorough": [dict(module="MC_Grp.tla", cfg="MC_Grp_full.cfg", workers=16, timeout=1500)]}
 STR_GHOST = {"quick": [dict(module="MC_Str.tla", cfg="MC_Str_ghost.cfg", workers=16, timeout=600)], "thorough": [dict(module="MC_Str.tla", cfg="MC_Str_ghost.cfg", workers=16, timeout=600)]}
 
 
@@ -151,6 +153,31 @@ def bulk_export_behaviour(n=20010):
             {"a": "EndBlock"}, {"a": "Commit"}]
 
 
+def default_limits_behaviours():
+    """Registrations under the production storage limits (default 50,000, maximum 600,000 - the values of the modules'
+    DefaultParams, where "limit = default" also means "limit = the code's DefaultStorageLimit constant"), exported and
+    re-imported with and without a purchase before, then purchases and records on both chains."""
+    g = {"accts": ["A1", "A2"], "bal": {"A1": {"nund": 1000, "other": 0}, "A2": {"nund": 1000, "other": 0}},
+         "ent": {"signers": ["A1"], "min": 1, "limit": 2, "denom": "nund", "wl": [], "startId": 1},
+         "wrk": {"feeReg": 4, "feeRec": 1, "feePur": 1, "denom": "nund", "def": 50000, "max": 600000, "startId": 1},
+         "bcn": {"feeReg": 4, "feeRec": 1, "feePur": 1, "denom": "nund", "def": 50000, "max": 600000, "startId": 1},
+         "str": {"feeNum": 1, "feeDen": 100}}
+    tx = lambda fee, *msgs: {"a": "DeliverTx", "fee": {"nund": fee}, "msgs": list(msgs)}
+    wrec = lambda o, i, h: {"t": "WRec", "owner": o, "id": i, "h": h, "bh": "b", "ph": "", "h1": "", "h2": "", "h3": ""}
+    brec = lambda o, i: {"t": "BRec", "owner": o, "id": i, "hash": "x", "subt": 7}
+    BB, EB, CM = {"a": "BeginBlock", "dt": 1000}, {"a": "EndBlock"}, {"a": "Commit"}
+    head = [{"a": "InitChain", "g": g}, BB,
+            tx(4, {"t": "WReg", "owner": "A1", "moniker": "m", "name": "n", "genesis": "g", "type": "t"}),
+            tx(4, {"t": "WReg", "owner": "A2", "moniker": "m2", "name": "n", "genesis": "g", "type": "t"}),
+            tx(4, {"t": "BReg", "owner": "A1", "moniker": "m", "name": "n"}), tx(4, {"t": "BReg", "owner": "A2", "moniker": "m2", "name": "n"}),
+            EB, CM, BB, tx(1, wrec("A1", 1, 1)), tx(1, brec("A1", 1)),
+            tx(3, {"t": "BBuy", "owner": "A2", "id": 2, "n": 3}), tx(2, {"t": "WBuy", "owner": "A2", "id": 2, "n": 2}), EB, CM]
+    after = [BB, tx(1, {"t": "BBuy", "owner": "A1", "id": 1, "n": 1}), tx(1, {"t": "WBuy", "owner": "A1", "id": 1, "n": 1}),
+             tx(1, {"t": "BBuy", "owner": "A2", "id": 2, "n": 1}), tx(1, {"t": "WBuy", "owner": "A2", "id": 2, "n": 1}),
+             tx(1, wrec("A1", 1, 2)), tx(1, brec("A1", 1)), tx(1, wrec("A2", 2, 1)), tx(1, brec("A2", 2)), EB, CM, {"a": "ListQueries", "full": False}]
+    return [head + [{"a": "ExportImport"}] + after, head + after + [{"a": "ExportImport"}] + after[:-1]]
+
+
 def c15_custom(pid, tier, plan, scr, hbin, specdir):
     import json, random
     import vlib
@@ -160,7 +187,7 @@ def c15_custom(pid, tier, plan, scr, hbin, specdir):
     cov = dict(states=0, transitions=0, traces_validated_against_impl=0, samples=[], mc_runs=[], recordings=[],
                steps_validated=0, notes=[], findings_other_properties=0, export_import_round_trips=0)
     recs = []
-    for mc in (FEE_MC[tier] + ENT_MC[tier] + REG_MC[tier] + STR_MC[tier]):
+    for mc in (FEE_MC[tier] + ENT_MC[tier] + REG_MC[tier] + STR_MC[tier] + GRP_MC[tier]):
         r = vlib.mc_exhaustive(specdir, mc["module"], mc["cfg"], scr, workers=16, timeout=mc.get("timeout", 900))
         cov["mc_runs"].append(r)
         cov["states"] += r["distinct"]
@@ -190,6 +217,10 @@ def c15_custom(pid, tier, plan, scr, hbin, specdir):
     recs.append((rec, "scripted: WRKChain with 20,010 records in state, export + import, further records", 1))
     cov["export_import_round_trips"] += 1
     cov["export_cap_crossed_on_real_app"] = True
+    dl = default_limits_behaviours()
+    rec, _ = vlib.record_behaviours(hbin, dl, scr, name="default-limits-export")
+    recs.append((rec, "scripted: registrations under the production storage limits (50,000 / 600,000), export + import, purchases and records", len(dl)))
+    cov["export_import_round_trips"] += len(dl)
     for prof, (steps, runs) in (("expmix", (250, 3) if tier == "quick" else (1500, 12)), ("expreg", (150, 2) if tier == "quick" else (1000, 8))):
         rec = vlib.record_random(hbin, prof, sd, steps, runs, scr)
         n = sum(1 for l in open(rec) if l.startswith('{"a":"ExportImport"'))
@@ -197,6 +228,52 @@ def c15_custom(pid, tier, plan, scr, hbin, specdir):
         cov["export_import_round_trips"] += n
     violations, known_hits = classify(pid, recs, cov, scr, specdir)
     return cov, violations, known_hits
+
+
+def extreme_amounts(hbin, scr, sd):
+    """C14 'extreme amounts': purchase orders of 2^62 ... 2^200 nund (decimal strings; far beyond TLC's integers) raised,
+    accepted, minted and locked, partly unlocked by registry fees, with an export/import at the end.  The genesis is
+    marked "extreme": Trace.tla judges these behaviours by ExtremeJudge only (no halt, failed transactions and
+    read-only calls leave the module stores byte-identical)."""
+    import vlib
+    g = {"accts": ["A1", "A2", "A3", "A4"], "bal": {a: {"nund": 1000, "other": 1000} for a in ("A1", "A2", "A3", "A4")},
+         "ent": {"signers": ["A1", "A2"], "min": 1, "limit": 4, "denom": "nund", "wl": ["A3", "A4"], "startId": 1},
+         "wrk": {"feeReg": 24, "feeRec": 2, "feePur": 3, "denom": "nund", "def": 2, "max": 4, "startId": 1},
+         "bcn": {"feeReg": 20, "feeRec": 1, "feePur": 5, "denom": "nund", "def": 2, "max": 4, "startId": 1},
+         "str": {"feeNum": 1, "feeDen": 100}, "extreme": True}
+    BB, EB, CM = {"a": "BeginBlock", "dt": 1000}, {"a": "EndBlock"}, {"a": "Commit"}
+    empty = [BB, EB, CM]
+
+    def tx(*msgs, **kw):
+        d = {"a": "DeliverTx", "msgs": list(msgs)}
+        d.update(kw)
+        return d
+
+    def raise_(pur, amt):
+        return tx({"t": "Raise", "pur": pur, "amt": str(amt), "denom": "nund"})
+
+    def decide(id_, d="accept", signer="A1"):
+        return tx({"t": "Decide", "signer": signer, "id": id_, "d": d})
+
+    wreg = lambda o: tx({"t": "WReg", "owner": o, "moniker": "m-" + o, "name": "n", "genesis": "g", "type": "geth"}, fee={"nund": 24})
+    breg = lambda o: tx({"t": "BReg", "owner": o, "moniker": "b-" + o, "name": "n"}, fee={"nund": 20})
+    tail = [{"a": "ListQueries", "full": False}, {"a": "ExportImport"}] + empty
+    behs = []
+    for amounts in ([2**62, 2**62], [2**63], [2**63 - 1, 1], [2**64, 2**100], [2**127, 2**127, 2**200], [2**62, 2**62, 2**62, 2**62]):
+        b = [{"a": "InitChain", "g": g}, BB]
+        for i, amt in enumerate(amounts):
+            b.append(raise_("A3" if i % 2 == 0 else "A4", amt))
+        b += [decide(i + 1) for i in range(len(amounts))]
+        b += [EB, CM] + empty * 3
+        # the holders spend locked eFUND on registry fees; a transfer of liquid funds; one more (small) order on top
+        b += [BB, wreg("A3"), breg("A4") if len(amounts) > 1 else breg("A3"),
+              tx({"t": "Send", "from": "A3", "to": "A1", "amt": 5, "denom": "nund"}), raise_("A3", 7), decide(len(amounts) + 1, signer="A2"),
+              # a failing multi-message transaction on top of the big books
+              tx({"t": "Send", "from": "A3", "to": "A1", "amt": 1, "denom": "nund"}, {"t": "Send", "from": "A3", "to": "A1", "amt": str(2**70), "denom": "other"}),
+              EB, CM] + empty * 3 + tail
+        behs.append(b)
+    rec, _ = vlib.record_behaviours(hbin, behs, scr, name="extreme-amounts")
+    return rec, len(behs)
 
 
 def c01_custom(pid, tier, plan, scr, hbin, specdir):
@@ -475,11 +552,11 @@ PLANS = {
                 rule="as C04 plus vesting purchasers in the random histories; monitors: locked drops only by min(fee, locked) in a registry tx of the payer and equals the spent increase; completion never raises spendable", assumptions=COMMON_ASSUME),
     "C02": dict(ledger=True, mc=both(FEE_MC, ENT_MC), sim=both(FEE_SIM, ENT_SIM), sweep=both(FEE_SWEEP, AUTH_SWEEP), random=rnd("mix", (400, 3), (2500, 20)),
                 rule="supply and sum of ALL balances (iteration incl. unmodelled accounts) after every step of mixed histories; mint/burn events of every ABCI response equal the supply delta; supply changes only in BeginBlock by the completed orders' amounts", assumptions=COMMON_ASSUME),
-    "C13": dict(mc=both(REG_MC, STR_MC, ENT_MC), sweep=AUTH_SWEEP, random=rnd("mix", (300, 2), (1500, 10)),
+    "C13": dict(mc=both(REG_MC, STR_MC, ENT_MC, GRP_MC), sweep=AUTH_SWEEP, random=rnd("mix", (300, 2), (1500, 10)),
                 rule="TLC breadth-first sweep MC_Auth: every message type x every account as signer x every account as named address in three encodings (foreign key, proper signature, Exec wrapper) from a prepared state; each behaviour replayed on the real app; state digest before/after compared", assumptions=COMMON_ASSUME),
-    "C14": dict(mc=both(FEE_MC, ENT_MC, ENT_GHOST), sim=both(FEE_SIM, ENT_SIM), sweep=both(FEE_SWEEP, PAR_SWEEP, AUTH_SWEEP), random=rnd("mix", (400, 3), (2500, 20)),
-                rule="begin/end block and commit wrapped in recover (a panic is the observation halted); failed and panicking txs compared on the full projection (only ante effects may remain); multi-message txs with the k-th message failing", assumptions=COMMON_ASSUME),
-    "C16": dict(mc=both(ENT_GHOST, REG_GHOST, STR_GHOST), sweep=PAR_SWEEP, sim=ENT_SIM, random=rnd("mix", (300, 2), (1500, 10)),
+    "C14": dict(mc=both(FEE_MC, ENT_MC, ENT_GHOST), extra={"quick": [extreme_amounts], "thorough": [extreme_amounts]}, sim=both(FEE_SIM, ENT_SIM), sweep=both(FEE_SWEEP, PAR_SWEEP, AUTH_SWEEP), random=rnd("mix", (400, 3), (2500, 20)),
+                rule="begin/end block and commit wrapped in recover (a panic is the observation halted); failed and panicking txs compared on the full projection (only ante effects may remain); multi-message txs with the k-th message failing; extreme amounts (orders of 2^62 ... 2^200 nund as decimal strings, minted, locked, partly unlocked, exported and imported) judged by Trace!ExtremeJudge: no begin/end blocker or commit panics, failed transactions and read-only calls leave every module store byte-identical", assumptions=COMMON_ASSUME),
+    "C16": dict(mc=both(ENT_GHOST, REG_GHOST, STR_GHOST, REG_DEEP), sweep=PAR_SWEEP, sim=ENT_SIM, random=rnd("mix", (300, 2), (1500, 10)),
                 rule="TLC breadth-first sweep MC_Par: parameter structures with each field at/inside/outside its bounds through a real governance proposal, followed by probes of every dependent rule; stored parameters re-validated against the stated rules in every observed state", assumptions=COMMON_ASSUME),
     "C17": dict(mc=FEE_MC, sim=FEE_SIM, sweep=FEE_SWEEP, random=rnd("mix", (300, 3), (2000, 15)),
                 rule="at every block boundary of the corpus the enterprise supply queries (SupplyOf every denomination, EnterpriseSupply, TotalUnlocked, TotalSupply with every page size in key and offset mode) are recorded and checked against bank supply and total locked of the same state", assumptions=COMMON_ASSUME),
@@ -487,16 +564,16 @@ PLANS = {
                 rule="TLC exhaustive on MC_Reg (registrations, records at lower/equal/next/gapped/huge heights by owners and strangers, purchases incl. Exec-wrapped and huge, gov limit changes); TLC-simulated + seeded random schedules executed on the real app; every record ever accepted is re-queried after every step", assumptions=COMMON_ASSUME),
     "C08": dict(mc=both(REG_MC, REG_GHOST, REG_DEEP), sim=REG_SIM, sweep=REG_SWEEP, random=rnd("reg", (300, 3), (2000, 20)),
                 rule="as C07; view = counters, limits, reported storage, in-state key sets (point queries and store iteration)", assumptions=COMMON_ASSUME),
-    "C09": dict(mc=REG_MC, sim=REG_SIM, sweep=REG_SWEEP, random=rnd("reg", (300, 3), (2000, 20)),
+    "C09": dict(mc=both(REG_MC, GRP_MC), sim=REG_SIM, sweep=REG_SWEEP, random=rnd("reg", (300, 3), (2000, 20)),
                 rule="as C07; view = ids, metadata of every registration ever made, owner-only writes", assumptions=COMMON_ASSUME),
-    "C10": dict(arith=True, mc=both(STR_MC, STR_GHOST), sim=STR_SIM, sweep=STR_SWEEP, random=rnd("str", (300, 3), (2000, 20)),
+    "C10": dict(arith=True, mc=both(STR_MC, STR_GHOST, GRP_MC), sim=STR_SIM, sweep=STR_SWEEP, random=rnd("str", (300, 3), (2000, 20)),
                 rule="TLC exhaustive on MC_Str (create/claim/top-up/rate change/cancel, two denominations, time advances 0/sub-second/seconds/beyond zero time, gov fee changes, sends to escrow); schedules executed on the real app; escrow balance, every stream, balances of all parties and the registered module invariant compared after every step", assumptions=COMMON_ASSUME),
     "C11": dict(arith=True, mc=both(STR_MC, STR_DEEP), sim=STR_SIM, sweep=STR_SWEEP, random=rnd("str", (300, 3), (2000, 20)),
                 rule="as C10; view = deposit, last release time, deposit-zero time of every stream, claim responses; monitor Sustained. Big-number region (deposits to 2^200, rates to 2^63-1, durations of thousands of years, nanosecond block times): Apalache finds inputs on which a reading of the Go int64/uint64/Duration arithmetic (mc/ArithAsBuilt.tla) disagrees with StreamArith.tla in three input domains; witnesses + a boundary table are executed on the real app (one signed tx per block) and Apalache judges every recorded step against StreamArith.tla from the observed pre-state (ArithJudge.tla)", assumptions=COMMON_ASSUME + ARITH_ASSUME),
-    "C12": dict(arith=True, mc=STR_MC, sim=STR_SIM, sweep=STR_SWEEP, random=rnd("str", (300, 3), (2000, 20)),
+    "C12": dict(arith=True, mc=both(STR_MC, GRP_MC), sim=STR_SIM, sweep=STR_SWEEP, random=rnd("str", (300, 3), (2000, 20)),
                 rule="as C10; monitors: a stream operation the specification accepts is not refused by the code, and no stream transaction panics; big-number region as for C11 (verdicts Panicked / Refused of claim, cancel and affordable top-up)", assumptions=COMMON_ASSUME + ARITH_ASSUME),
     "C01": dict(custom=c01_custom,
-                rule="TLC exhaustive on MC_Abci (Crash enabled in every phase, Restart from the durable state, re-proposal of the interrupted block; invariants RestartResumesCommitted, DurableAgreesWithReference); behaviours with TLC-chosen crash points and mixed random histories with EVERY crash point are executed on three real replicas (MemDB uninterrupted; goleveldb crashed/restarted with interleaved CheckTx and queries; separate process with GOMAXPROCS=1 started >1.1 s later); app hash at every height, every tx result (code, data, gas wanted/used), and height/hash/state right after each restart are compared by TLC monitors",
+                rule="TLC exhaustive on MC_Abci (Crash enabled in every phase, Restart from the durable state, re-proposal of the interrupted block; invariants RestartResumesCommitted, DurableAgreesWithReference); behaviours with TLC-chosen crash points and mixed random histories with EVERY crash point are executed on three real replicas (MemDB uninterrupted; goleveldb crashed/restarted with interleaved CheckTx and queries; separate process with GOMAXPROCS=1 started >1.1 s later, with another node-local configuration: genesis invariants not asserted, every registered invariant asserted in every block; the crashed replica also offers every transaction to Simulate and CheckTx before delivering it); app hash at every height, every tx result (code, data, gas wanted/used), and height/hash/state right after each restart are compared by TLC monitors",
                 assumptions=COMMON_ASSUME + ["crashes are placed between ABCI calls (inside Commit the atomicity is the SDK/DB's)", "nondeterministic statements on paths no transaction reaches are not observable"]),
     "C20": dict(mc={"quick": [dict(module="MC_Page.tla", cfg="MC_Page_quick.cfg", workers=8, timeout=300)],
                     "thorough": [dict(module="MC_Page.tla", cfg="MC_Page_full.cfg", workers=16, timeout=900)]},
